@@ -44,8 +44,31 @@ def select_harnesses(units, tier):
 
 
 def run_kani_property(pid, cfg, tier, seed, clock):
+    """Run every Kani group of the property and merge the results."""
+    groups = cfg["kani"] if isinstance(cfg["kani"], list) else [cfg["kani"]]
+    V, Kn, U, scan = [], [], [], []
+    per, cov = [], None
+    for gi, g in enumerate(groups):
+        v, k, u, c, s = run_kani_group(pid, g, tier, seed, clock, gi)
+        V += v
+        Kn += k
+        U += u
+        scan += s
+        if cov is None:
+            cov = c
+        else:
+            for key in ("obligations", "discharged", "tagged_obligations", "tagged_discharged"):
+                cov[key] += c[key]
+            cov["solver_seconds_total"] = round(cov["solver_seconds_total"] + c["solver_seconds_total"], 1)
+            for key in ("harnesses_unbounded_discharged", "harnesses_bounded_discharged", "per_harness"):
+                cov[key] += c[key]
+            cov["samples"] = (cov["samples"] + c["samples"])[:8]
+    return V, Kn, U, cov, scan
+
+
+def run_kani_group(pid, kcfg, tier, seed, clock, gi=0):
     """Returns (violations, known, undecided, coverage_dict, assumptions)."""
-    kcfg = dict(cfg["kani"])
+    kcfg = dict(kcfg)
     if os.environ.get("VERIF_UNITS"):  # development aid: run a subset of the units
         kcfg["units"] = os.environ["VERIF_UNITS"].split(",")
     units = K.load_units(["common"] + kcfg["units"]) if kcfg.get("package", "typify-impl") == "typify-impl" else K.load_units(kcfg["units"])
@@ -57,7 +80,8 @@ def run_kani_property(pid, cfg, tier, seed, clock):
     timeout_s = int(os.environ.get("VERIF_HARNESS_TIMEOUT", kcfg.get("timeout_" + tier, 1200 if tier == "quick" else 3600)))
     jobs = int(os.environ.get("VERIF_JOBS", kcfg.get("jobs", 8)))
     log_dir = os.path.join(VERIF, "work", "logs", os.environ.get("VERIF_TAG", pid))
-    shutil.rmtree(log_dir, ignore_errors=True)
+    if gi == 0:
+        shutil.rmtree(log_dir, ignore_errors=True)
     os.makedirs(log_dir, exist_ok=True)
 
     findings, _fixed = C.load_known_findings()
@@ -73,14 +97,14 @@ def run_kani_property(pid, cfg, tier, seed, clock):
         extra_prepare = mod.prepare
 
     try:
-        with K.Workspace(os.environ.get("VERIF_TAG", pid), units, package=kcfg.get("package", "typify-impl"), extra_prepare=extra_prepare) as ws:
+        with K.Workspace(os.environ.get("VERIF_TAG", pid) + ("" if gi == 0 else "-g%d" % gi), units, package=kcfg.get("package", "typify-impl"), extra_prepare=extra_prepare) as ws:
             fq = [u.fq(h["name"]) for u, h in sel] + [u.fq(c) for u, c in canaries]
             log("[%s] kani: %d harnesses + %d canaries, tier=%s, timeout/harness=%ds, jobs=%d" % (pid, len(sel), len(canaries), tier, timeout_s, jobs))
-            rc, out, rdir, killed = K.run_kani(ws, fq, timeout_s, jobs, os.path.join(log_dir, "kani.log"))
-            if re.search(r"^error(\[E\d+\])?:", out, re.M) and not os.path.isdir(rdir):
-                undecided.append("build failed (harness does not compile against the current tree, or compiler crash); see work/logs/%s/kani.log" % pid)
+            rc, out, rdir, killed = K.run_kani(ws, fq, timeout_s, jobs, os.path.join(log_dir, "kani-g%d.log" % gi))
+            if re.search(r"^error: could not compile|^error: Failed to compile", out, re.M):
+                undecided.append("build failed (harness does not compile against the current tree, or compiler crash); see work/logs/%s/" % pid)
             if "internal compiler error" in out or "Kani unexpectedly panicked" in out:
-                undecided.append("kani-compiler crashed; see work/logs/%s/kani.log" % pid)
+                undecided.append("kani-compiler crashed; see work/logs/%s/" % pid)
             for (pid_k, rss) in killed:
                 undecided.append("cbmc pid %d killed by RSS watchdog at %d MB" % (pid_k, rss // 1024))
 
@@ -133,7 +157,11 @@ def run_kani_property(pid, cfg, tier, seed, clock):
                     cand.append({"tag": "PANIC", "status": "FAILURE", "desc": t["desc"], "loc": t["loc"], "id": t["id"]})
                 if not cand:
                     rec["outcome"] = "discharged" if res["verdict"] == "SUCCESSFUL" else rec.get("outcome", "not-discharged")
-                    if res["verdict"] != "SUCCESSFUL" and not cl["tool_fail"] and not cl["must_cover_bad"]:
+                    foreign_fail = [f_ for f_ in cl["foreign"] if f_["status"] == "FAILURE"]
+                    if foreign_fail:
+                        rec["outcome"] = "discharged" if not cl["tool_fail"] else rec.get("outcome")
+                        rec["foreign_failures"] = foreign_fail
+                    if res["verdict"] != "SUCCESSFUL" and not cl["tool_fail"] and not cl["must_cover_bad"] and not foreign_fail:
                         undecided.append("%s: verdict %s without a classified failure" % (name, res["verdict"]))
                     continue
                 # ---- candidate violation(s) ----
